@@ -265,11 +265,48 @@ def gen_module(rng, hostile):
         col = text.index(":: " + d["name"]) + 3
         ents.append((ln, col, d, docs))
 
+    def emit_multi(ind, base):
+        """one statement declaring several entities (no documentation: which entity a block belongs to would be a guess), optionally followed
+        by a separate EXTERNAL statement naming one of them: every entity keeps the statement's type and attributes and only its own extras"""
+        ty = rng.choice(["real", "integer", "logical", "real(8)", "double precision"])
+        sel = ""
+        if "(" in ty:
+            ty, sel = "real", "(8)"
+        form = rng.randrange(3)
+        names = [f"{base}{c}" for c in "abc"[:rng.randint(2, 3)]]
+        if form == 0:
+            # plain siblings + EXTERNAL for one of them
+            attrs, dims, ext = [], {}, rng.choice(names)
+        elif form == 1:
+            # statement-level attribute, entity-level dimensions for some
+            attrs, ext = rng.choice([["save"], ["target"], ["dimension(2)"], ["save", "target"]]), None
+            dims = {nm: rng.choice(["(3)", "(2,2)"]) for nm in names if rng.random() < 0.5 and "dimension(2)" not in attrs}
+        else:
+            attrs, dims, ext = ["parameter"], {}, None
+            ty, sel = "integer", ""
+        text = ind + ty + sel + ("".join(", " + a for a in attrs)) + " :: " + ", ".join(nm + dims.get(nm, "") + (f" = {k + 1}" if form == 2 else "") for k, nm in enumerate(names))
+        ln = len(lines)
+        lines.append(text)
+        if ext is not None:
+            lines.append(ind + rng.choice(["external ", "external :: ", "EXTERNAL "]) + ext)
+        for k, nm in enumerate(names):
+            ea = set(norm_attr(a) for a in attrs if not a.startswith("dimension")) | ({"DIMENSION(2)"} if "dimension(2)" in attrs else set())
+            if nm in dims:
+                ea.add("DIMENSION" + dims[nm])
+            if nm == ext:
+                ea.add("EXTERNAL")
+            d = {"text": text.strip(), "type": ty.upper(), "selector": sel, "entity_len": None, "attrs": ea, "name": nm, "value": str(k + 1) if form == 2 else None,
+                 "hostile_attr": False, "hostile_value": False, "multi": True}
+            ents.append((ln, re.search(r"\b" + nm + r"\b", text).start(), d, []))
+
     n = 0
     for _ in range(rng.randint(2, 5)):
         n += 1
         d = gen_decl(rng, f"mv{n}", "module", hostile)
         emit_decl(d, "  ")
+    if rng.random() < 0.4:
+        n += 1
+        emit_multi("  ", f"mm{n}")
     lines.append("contains")
     procs = []
     for pn in range(rng.randint(1, 2)):
@@ -299,6 +336,9 @@ def gen_module(rng, hostile):
             n += 1
             d = gen_decl(rng, f"lv{n}", "local", hostile)
             emit_decl(d, "    ")
+        if rng.random() < 0.4:
+            n += 1
+            emit_multi("    ", f"lm{n}")
         if kind == "function":
             lines.append(f"    rr{pn} = 0")
         lines.append(f"  end {kind} pr{pn}")
